@@ -239,6 +239,23 @@ class Planner:
         victims = [m for m in usable if m.name not in forbidden_names and m.parent is None]
         named_roots = parents
         choice = r.random()
+        if 'name_reuse' in kinds and choice < 0.22:
+            # "edit the base, re-run everything": an extended root is re-created under its name with
+            # edited rules, then a child is re-created from its byte-identical description
+            pairs = [(v, k) for v in victims for k in usable
+                     if k.parent is v and k.name not in forbidden_names and not (names_of(k) & forbidden_names)]
+            if pairs:
+                v, k = r.choice(sorted(pairs, key=lambda p: (p[0].id, p[1].id)))
+                vs, vg = spec.gen_variant(r, v.spec, v.gen)
+                i1 = ModInfo(next_id, v.name, None, vs, vg)
+                i1.victim = v
+                i2 = ModInfo(next_id + 1, k.name, next_id, k.spec, k.gen, parent=i1)
+                i2.victim = k
+                out = []
+                for info in (i1, i2):
+                    out.append(({'op': 'compile', 'mod': info.id, 'desc': info.desc, 'name': info.name,
+                                 'extends': info.extends, 'recreate': True}, info))
+                return out
         if named_roots and choice < 0.35:
             parent = r.choice(sorted(named_roots, key=lambda m: m.id))
             s, g = spec.gen_child(r, parent.gen)
@@ -260,7 +277,7 @@ class Planner:
             info.chain = (info.parent.chain if info.parent else ()) + (info.desc,)
             op['desc'] = info.desc
             op['fails'] = True
-        return op, info
+        return [(op, info)]
 
     def plan(self, index, verif_seed):
         ur, wr, fr, sr = self.ur, self.wr, self.fr, self.sr
@@ -291,7 +308,7 @@ class Planner:
             for _ in range(n_ops):
                 x = wr.random()
                 live = sorted(self.infos)
-                if 'compile' in kinds and x < 0.12 and next_id < 9:
+                if 'compile' in kinds and x < 0.12 and next_id < 12:
                     forbidden = set()
                     for cj, names in extended_by.items():
                         if cj != ci:
@@ -299,26 +316,30 @@ class Planner:
                     for cj, names in defined_by.items():
                         if cj != ci:
                             forbidden |= names
-                    op, info = self.gen_compile(kinds, next_id, forbidden, ci)
-                    # the child's parent name must not be re-bound by another client
-                    anc = info.parent
-                    while anc is not None:
-                        extended_by.setdefault(ci, set()).add(anc.name)
-                        anc = anc.parent
-                    if info.name:
-                        defined_by.setdefault(ci, set()).add(info.name)
-                    ok = not isinstance(U.chain_codes(info.chain), tuple)
-                    if op.get('fails') or not ok:
-                        op['fails'] = True
-                    ops.append(op)
-                    self.chains[next_id] = info.chain
-                    if ok and not op.get('fails'):
-                        if getattr(info, 'victim', None) is not None:
-                            info.victim.shadowed = True
-                        info.texts = make_texts(wr, info, n=2)
-                        info.owner = ci
-                        self.infos[next_id] = info
-                    next_id += 1
+                    failed = False
+                    for op, info in self.gen_compile(kinds, next_id, forbidden, ci):
+                        if failed:
+                            break
+                        # the child's parent name must not be re-bound by another client
+                        anc = info.parent
+                        while anc is not None:
+                            extended_by.setdefault(ci, set()).add(anc.name)
+                            anc = anc.parent
+                        if info.name:
+                            defined_by.setdefault(ci, set()).add(info.name)
+                        ok = not isinstance(U.chain_codes(info.chain), tuple)
+                        if op.get('fails') or not ok:
+                            op['fails'] = True
+                            failed = True
+                        ops.append(op)
+                        self.chains[next_id] = info.chain
+                        if ok and not op.get('fails'):
+                            if getattr(info, 'victim', None) is not None:
+                                info.victim.shadowed = True
+                            info.texts = make_texts(wr, info, n=2)
+                            info.owner = ci
+                            self.infos[next_id] = info
+                        next_id += 1
                     continue
                 if 'scramble' in kinds and x < 0.2 and ops and ops[-1]['op'] == 'parse':
                     ops.append({'op': 'scramble'})
